@@ -113,8 +113,12 @@ def run_verus_unit(name, tier, seed, extra_args=()):
         return res
     text = u.text()
     os.makedirs(BUILD, exist_ok=True)
-    path = os.path.join(BUILD, name + '.rs')
-    open(path, 'w').write(text)
+    # runs with extra solver options (seed retries, thorough tier) get their own file: they run in parallel with each other
+    tag = ''.join(ch for ch in '_'.join(extra_args) if ch.isalnum())[-24:]
+    path = os.path.join(BUILD, name + ('_' + tag if tag else '') + '.rs')
+    tmp = path + '.%d.tmp' % os.getpid()
+    open(tmp, 'w').write(text)
+    os.replace(tmp, path)
     res['fns'] = u.fns
     res['items'] = u.items
     res['unit_sha'] = hashlib.sha256((text + VERUS_VERSION + ' '.join(extra_args)).encode()).hexdigest()
@@ -138,7 +142,8 @@ def run_verus_unit(name, tier, seed, extra_args=()):
         except subprocess.TimeoutExpired:
             raw = {'rc': -9, 'stdout': '', 'stderr': 'timed out', 'cmd': ' '.join(cmd)}
         os.makedirs(CACHE, exist_ok=True)
-        if raw['rc'] in (0, 1):
+        # only completed verifications are cached (a rejected or truncated unit is re-run next time)
+        if raw['rc'] in (0, 1) and '"verification-results"' in raw['stdout']:
             json.dump(raw, open(cpath, 'w'))
     res['cmd'] = raw['cmd']
     res['raw_stderr'] = raw['stderr']
